@@ -17,6 +17,7 @@ func init() {
 		},
 		NotDecided: []string{"acceptance of the whole grammar / independence from layout, comments and redundant parentheses beyond the look-ahead rule", "and/or precedence inside label predicates", "numeric literal values, string unquoting (strutil.Unquote), duration/bytes literal values"},
 		Rules: func(r *Run) {
+			ruleScannerLoopsStopAtEOF(r, []string{"internal/lexerql", lexerPkg, "internal/logql/logqlengine/jsonexpr", "internal/logql/logqlengine/logqlpattern"}, 4)
 			ruleTokenTable(r)
 			ruleCHParseOps(r)
 			ruleCHParseSites2(r)
